@@ -53,6 +53,10 @@ type e2eNode struct {
 	mu    sync.Mutex
 	evs   []datatransfer.EventCode
 	stats map[datatransfer.ChannelID]datatransfer.Status
+
+	procCancel  context.CancelFunc
+	beforeStart []func(datatransfer.Manager) // registrations repeated at every boot
+	afterStart  []func(datatransfer.Manager)
 }
 
 type e2eValidator struct {
@@ -85,14 +89,25 @@ func newE2ENode(ctx context.Context, h host.Host) *e2eNode {
 	n.bs = bstore.NewBlockstore(namespace.Wrap(ds, datastore.NewKey("blockstore")))
 	n.dag = merkledag.NewDAGService(blockservice.New(n.bs, offline.Exchange(n.bs)))
 	n.lsys = storeutil.LinkSystemForBlockstore(n.bs)
-	gs := gsimpl.New(ctx, gsnet.NewFromLibp2pHost(h), n.lsys)
-	dtnet := network.NewFromLibp2pHost(h, network.RetryParameters(0, 0, 0, 0))
-	tp := gstransport.NewTransport(h.ID(), gs)
+	n.boot(ctx)
+	return n
+}
+
+// boot starts a "process" on the node's stores and host: a fresh graphsync, transport and manager
+func (n *e2eNode) boot(ctx context.Context) {
+	pctx, cancel := context.WithCancel(ctx)
+	n.procCancel = cancel
+	gs := gsimpl.New(pctx, gsnet.NewFromLibp2pHost(n.host), n.lsys)
+	dtnet := network.NewFromLibp2pHost(n.host, network.RetryParameters(0, 0, 0, 0))
+	tp := gstransport.NewTransport(n.host.ID(), gs)
 	m, err := impl.NewDataTransfer(n.ds, dtnet, tp)
 	if err != nil {
 		panic(err)
 	}
 	n.mgr = m
+	for _, f := range n.beforeStart {
+		f(m)
+	}
 	ready := make(chan error, 1)
 	m.OnReady(func(e error) { ready <- e })
 	if err := m.Start(ctx); err != nil {
@@ -105,7 +120,15 @@ func newE2ENode(ctx context.Context, h host.Host) *e2eNode {
 		n.stats[st.ChannelID()] = st.Status()
 		n.mu.Unlock()
 	})
-	return n
+	for _, f := range n.afterStart {
+		f(m)
+	}
+}
+
+// kill stops the process (manager, transport, graphsync); the stores and the host stay
+func (n *e2eNode) kill(ctx context.Context) {
+	_ = n.mgr.Stop(ctx)
+	n.procCancel()
 }
 
 // payload with a chosen pattern of (possibly repeated) 1 KiB chunks
